@@ -305,11 +305,18 @@ def worldCmd (cmd : String) (w : World) (wf : List WT) (args : List String) : St
   | "status", [] =>
     (match w.status wf with
      | .error e => "err " ++ e.name
-     | .ok rows => "ok rows=" ++ ",".intercalate ((sortPairs rows).map (fun p => toString p.1 ++ ":" ++ p.2.name)))
+     | .ok rows => "ok rows=" ++ ",".intercalate ((sortPairs rows).map (fun p => toString p.1 ++ ":" ++ p.2.name))
+         ++ " fb=" ++ (match w.fileBased wf with | .ok l => ",".intercalate (l.map toString) | .error _ => ""))
+  | "info", [] =>
+    (match w.info wf with
+     | .error e => "err " ++ e.name
+     | .ok rows => "ok info=" ++ ";".intercalate (rows.map (fun r => toString r.1 ++ ":" ++ "+".intercalate (r.2.1.map toString)
+         ++ ":" ++ "+".intercalate (r.2.2.map toString))))
   | "statusf", [sts, ep, ps] =>
     (match w.statusFiltered wf ((unlist sts).filterMap Status.ofName?) (bool! ep) (pats ps) with
      | .error e => "err " ++ e.name
-     | .ok rows => "ok rows=" ++ ",".intercalate ((sortPairs rows).map (fun p => toString p.1 ++ ":" ++ p.2.name)))
+     | .ok rows => "ok rows=" ++ ",".intercalate ((sortPairs rows).map (fun p => toString p.1 ++ ":" ++ p.2.name))
+         ++ " fb=" ++ (match w.fileBased wf with | .ok l => ",".intercalate (l.map toString) | .error _ => ""))
   | "dry", [ps] =>
     (match w.plan wf (pats ps) with
      | .error e => "err " ++ e.name
